@@ -233,13 +233,13 @@ void containers_one(std::size_t n, std::size_t idx)
       }
     for (std::size_t hi : huge_indices)
     {
-      if (fcppt::container::grid::at_optional(g, grid2::pos(hi, 0)).has_value() || fcppt::container::grid::at_optional(g, grid2::pos(0, hi)).has_value() || fcppt::container::grid::at_optional(g, grid2::pos(hi, hi)).has_value())
+      if (fcppt::container::grid::at_optional(g, grid2::pos(hi, std::size_t{0})).has_value() || fcppt::container::grid::at_optional(g, grid2::pos(std::size_t{0}, hi)).has_value() || fcppt::container::grid::at_optional(g, grid2::pos(hi, hi)).has_value())
         fail("grid::at_optional|huge-coordinate", "a huge coordinate was accepted");
     }
     grid1 g1(grid1::dim(n), 1);
     if (auto r = fcppt::container::grid::at_optional(g1, grid1::pos(idx)); r.has_value()) touch(r.get_unsafe().get());
-    grid3 g3(grid3::dim(n, 2, h), 1);
-    if (auto r = fcppt::container::grid::at_optional(g3, grid3::pos(idx, 1, 0)); r.has_value()) touch(r.get_unsafe().get());
+    grid3 g3(grid3::dim(n, std::size_t{2}, h), 1);
+    if (auto r = fcppt::container::grid::at_optional(g3, grid3::pos(idx, std::size_t{1}, std::size_t{0})); r.has_value()) touch(r.get_unsafe().get());
   });
 }
 Reg const r_containers{"containers", Kind::exhaustive, "container is empty or has one element, or the index is the last valid one or beyond (incl. huge indices)",
